@@ -558,7 +558,7 @@ fn scale_values() -> Vec<(String, Val)> {
 /// generated one at a time from their index (the whole family held in memory would need GBs).
 fn dense_bounds(thorough: bool) -> (usize, usize, usize) {
     if thorough {
-        (4200, 1500, 1200)
+        (2100, 1000, 1200)
     } else {
         (1100, 400, 300)
     }
@@ -590,7 +590,7 @@ fn dense_value(thorough: bool, mut i: usize) -> (String, Val) {
     if i <= nl {
         let l = i;
         let a: String = "abcdefghijklmnopqrstuvwxyz".chars().cycle().take(l).collect();
-        let b: String = "漢字".chars().cycle().take(l / 2).collect::<String>() + if l % 2 == 1 { "z" } else { "" };
+        let b: String = (if l % 2 == 1 { "z" } else { "" }).to_string() + &"漢字".chars().cycle().take(l / 2).collect::<String>(); // lead bytes at odd offsets for odd l, even for even l
         let mut clip = none_clip;
         clip[0] = Some(a.clone());
         clip[256] = Some(b.clone());
